@@ -122,6 +122,9 @@ class Ocp(Stage):
             self._original._set_transcribed(False)
 
             self._untranscribe_recurse(phase=2)
+        else:
+            # An edit may have invalidated a transcription whose artifacts (Opti) the methods still hold
+            self._untranscribe_recurse(phase=1)
 
     @property
     @transcribed
